@@ -496,7 +496,8 @@ fn parse_mh2o_chunk<R: Read + Seek>(
                     Ok(_) => {
                         // Convert to u64 by padding with zeros
                         let mut padded = [0u8; 8];
-                        for (i, &byte) in bitmap_bytes.iter().enumerate() {
+                        // A hostile width x height can ask for more than the 8 bytes a cell has
+                        for (i, &byte) in bitmap_bytes.iter().take(8).enumerate() {
                             padded[i] = byte;
                         }
                         let bitmap = u64::from_le_bytes(padded);
@@ -535,8 +536,8 @@ fn parse_mh2o_chunk<R: Read + Seek>(
                         // Read vertices and place them at correct grid positions
                         // Vertices are stored in row-major order: z * 9 + x
                         // CRITICAL: Clamp coordinates to [0, 8] - some WoW files have invalid ranges
-                        let z_end = ((instance.y_offset + instance.height) as usize).min(8);
-                        let x_end = ((instance.x_offset + instance.width) as usize).min(8);
+                        let z_end = (instance.y_offset as usize + instance.height as usize).min(8);
+                        let x_end = (instance.x_offset as usize + instance.width as usize).min(8);
 
                         for z in instance.y_offset as usize..=z_end {
                             for x in instance.x_offset as usize..=x_end {
@@ -553,8 +554,8 @@ fn parse_mh2o_chunk<R: Read + Seek>(
                     }
                     Some(crate::chunks::mh2o::LiquidVertexFormat::HeightUv) => {
                         let mut grid: [Option<HeightUvVertex>; 81] = [None; 81];
-                        let z_end = ((instance.y_offset + instance.height) as usize).min(8);
-                        let x_end = ((instance.x_offset + instance.width) as usize).min(8);
+                        let z_end = (instance.y_offset as usize + instance.height as usize).min(8);
+                        let x_end = (instance.x_offset as usize + instance.width as usize).min(8);
 
                         for z in instance.y_offset as usize..=z_end {
                             for x in instance.x_offset as usize..=x_end {
@@ -571,8 +572,8 @@ fn parse_mh2o_chunk<R: Read + Seek>(
                     }
                     Some(crate::chunks::mh2o::LiquidVertexFormat::DepthOnly) => {
                         let mut grid: [Option<DepthOnlyVertex>; 81] = [None; 81];
-                        let z_end = ((instance.y_offset + instance.height) as usize).min(8);
-                        let x_end = ((instance.x_offset + instance.width) as usize).min(8);
+                        let z_end = (instance.y_offset as usize + instance.height as usize).min(8);
+                        let x_end = (instance.x_offset as usize + instance.width as usize).min(8);
 
                         for z in instance.y_offset as usize..=z_end {
                             for x in instance.x_offset as usize..=x_end {
@@ -589,8 +590,8 @@ fn parse_mh2o_chunk<R: Read + Seek>(
                     }
                     Some(crate::chunks::mh2o::LiquidVertexFormat::HeightUvDepth) => {
                         let mut grid: [Option<HeightUvDepthVertex>; 81] = [None; 81];
-                        let z_end = ((instance.y_offset + instance.height) as usize).min(8);
-                        let x_end = ((instance.x_offset + instance.width) as usize).min(8);
+                        let z_end = (instance.y_offset as usize + instance.height as usize).min(8);
+                        let x_end = (instance.x_offset as usize + instance.width as usize).min(8);
 
                         for z in instance.y_offset as usize..=z_end {
                             for x in instance.x_offset as usize..=x_end {
